@@ -20,7 +20,7 @@ from .. import poly
 from ..costlib import layer_map
 from ..model import AnalysisError, ClassInfo, FunctionInfo
 from ..sym import NONE, State, Term, mentions, show, subterms
-from ..util import (SELF, arg, callee, guards_of, is_call, method_call, paths, returning, short,
+from ..util import (SELF, arg, bind_args, callee, guards_of, is_call, method_call, paths, returning, short,
                     where)
 from .c13 import _pow_equal
 
@@ -293,6 +293,56 @@ def r14g(ctx, classes):
                'back-end layers keep no state shared between instances', '', nontrivial=False)
 
 
+F_CONV_SLOTS = ['input', 'weight', 'bias', 'stride', 'padding', 'dilation', 'groups']
+
+
+def r14h(ctx, classes):
+    """The integer convolution is the layer's own convolution: every call of
+    torch.nn.functional.conv{1,2,3}d in a back-end layer's forward passes stride, dilation and
+    groups bound to the layer's attributes of the same name (an omitted slot silently takes
+    torch's default 1), and its padding is the layer's padding or an explicit pad of the input
+    followed by 'valid' / 0.  (Slots of the functional API: input, weight, bias=None, stride=1,
+    padding=0, dilation=1, groups=1 — a fact of the torch C++ binding, stated here.)"""
+    repo = ctx.repo
+    n = 0
+    for be, ci in classes:
+        fwd = ci.methods.get('forward')
+        if fwd is None:
+            continue
+        for p in returning(paths(repo, fwd)):
+            for e in p.calls():
+                t = e.data[0]
+                c = callee(t) or ''
+                if not (c.startswith('torch.nn.functional.conv') and c[-2:] in ('1d', '2d', '3d')):
+                    continue
+                n += 1
+                bound = bind_args(t, F_CONV_SLOTS)
+                bad = []
+                for slot in ('stride', 'dilation', 'groups'):
+                    v = bound.get(slot)
+                    if v is None:
+                        bad.append(f'{slot} is not passed (torch uses 1) although the layer has '
+                                   f'its own self.{slot}')
+                    elif v != ('attr', SELF, slot):
+                        bad.append(f'{slot} receives {short(v, 40)}')
+                pad = bound.get('padding', ('const', 0))
+                inp = bound.get('input')
+                explicit = inp is not None and mentions(inp, lambda x: x[0] == 'call' and (
+                    (method_call(x) is not None and method_call(x)[0] == ('attr', SELF, 'pad')) or
+                    x[1] == ('attr', SELF, 'pad') or (callee(x) or '').endswith('functional.pad')))
+                if not (pad == ('attr', SELF, 'padding') or
+                        (explicit and pad in (('const', 'valid'), ('const', 0)))):
+                    bad.append(f'padding is {short(pad, 30)} (explicit pad of the input: '
+                               f'{explicit})')
+                key = f'{ci.name}.forward convolution +{getattr(e.node, "lineno", 0) - fwd.node.lineno}'
+                ctx.ob('R14h', key, not bad,
+                       'stride, padding, dilation and groups are the layer\'s own' if not bad else
+                       '; '.join(bad) + ': the integer layer computes a different convolution '
+                       'than its fake-quantised counterpart (other taps / output size)',
+                       where(fwd, e.node))
+    ctx.floor('R14h', 'functional convolution calls in back-end forwards', n, 4)
+
+
 def r14c(ctx, classes):
     repo = ctx.repo
     facts: Dict[str, Dict[str, str]] = {}
@@ -401,6 +451,8 @@ def _gen(t):
             return ('sym', 'SHIFT_POS')
         if t and t[0] == 'elem':
             return ('sym', 'elem')
+        if t and t[0] in ('dict', 'comp'):
+            return ('sym', 'table')         # the candidate table, however it is filled
         mc = method_call(t) if t and t[0] == 'call' else None
         if mc and mc[1] in ('clone', 'detach', 'cpu'):
             return _gen(mc[0])
@@ -521,6 +573,7 @@ def run(ctx):
     r14d(ctx, classes)
     r14f(ctx, classes)
     r14g(ctx, classes)
+    r14h(ctx, classes)
     ctx.note('R14e (informational): Backend.DIANA has no layer map; C14 speaks of the two '
              'implemented back ends only')
     ctx.assume('a path is feasible when its branch conditions are consistent (same atom, same '
